@@ -22,7 +22,10 @@ RULE = ("hand-written catalogue (label boundary at depth, longest rule / inserti
         "pairs covering the same name with different values in every insertion order through MixMatcher, hosts and redirect (entries / file / "
         "both); case-sensitive rule text (regexps A and ^\\D, type prefixes FULL: / Domain:) through every loader; "
         "rule texts with a line of 65534 / 65535 / 65536 / 65537 / 70000 bytes (a comment, a line carrying a rule, a last line without end "
-        "of line) between ordinary rules through every loader, and a reader failing after k bytes for the raw loader) "
+        "of line) between ordinary rules through every loader, and a reader failing after k bytes for the raw loader; "
+        "label lengths 1, 2, 62, 63 (the DNS maximum) and 64 octets leftmost / in the middle / rightmost in rules and in names, chains of "
+        "nested domain rules through a 63-octet label in both insertion orders (longest-match value), full / keyword / regexp rules next to "
+        "them, the same through domain_set, hosts, redirect and qname, and names of 253 / 255 octets made of four labels at the limit) "
         "followed by seeded random rule sets over the label alphabet {a, b, ab} plus boundary labels (z, zz, az, m, y, a@, a`, a[, a{) "
         "(depth <= 5, all four types, default type, duplicates with other case / dot / value, nested suffixes; case flips per letter, "
         "independently, mostly a single letter and preferably a boundary letter) x names derived from the rules (itself, subdomain, glued "
@@ -33,7 +36,9 @@ RULE = ("hand-written catalogue (label boundary at depth, longest rule / inserti
         "(0..3 references each, nesting, members optionally marked with a label of their own) with one query name derived from every reachable "
         "member, consumed via GetDomainMatcher, qname '$tag' and qname 'exps $tag'; full/domain counterpart rules with other values; random texts with one line around bufio's 64 KiB token limit "
         "(up to 128 KiB) followed by more rules, queried with names of the rule after the long line, and random read faults at or inside "
-        "line boundaries: the oracle demands 'the load fails, or every rule of the text is in the set'; plus a separate malformed stream (empty labels, '..', bad type "
+        "line boundaries: the oracle demands 'the load fails, or every rule of the text is in the set'; "
+        "label length as a dimension: one label in 90 everywhere, and one in three in a dedicated stream (2 cases in 26), is 61..64 octets "
+        "long (mostly 63), at any position of rules and names, through the valued mix matcher, the domain matcher and all loaders; plus a separate malformed stream (empty labels, '..', bad type "
         "names, no default). A case is non-trivial when for some query at least two rules describe the name or a domain rule is a string "
         "suffix of the name without being a label suffix; distinct = distinct Gallina literal")
 ASSUMPTIONS = [
@@ -43,6 +48,8 @@ ASSUMPTIONS = [
     "names with empty labels are outside the property; the model still reproduces what the code does on them (checked by Judge.C12.agree), "
     "the property's own oracle (spec) is applied only to rule sets and names without empty labels",
     "IP address syntax (hosts) and YAML decoding of plugin arguments are outside the model",
+    "the matchers and loaders place no limit on label or name length (no guard in the Go code), so neither does the model: labels of 64 "
+    "octets and names over 255 octets are matched like any other",
     "bufio.Scanner with its default buffer gives up (ErrTooLong) exactly on a line of >= 65536 bytes before its newline, and after a read "
     "error hands out what it has read before reporting the error: modelled by Model.Domain.scan_lines / Judge CLoadX and checked at the "
     "boundary by the differential run",
